@@ -115,6 +115,28 @@ func main() {
 		}
 		sort.Strings(ks)
 		fmt.Println("unmodeled:", ks)
+	case "stride":
+		all := eng.AnalyzeStrideAll(p.SrcFuncs(true))
+		for _, fn := range p.SrcFuncs(true) {
+			si := all[fn]
+			if len(si.Sites) == 0 {
+				continue
+			}
+			fmt.Printf("%s strides=%d\n", core.FuncName(fn), si.Strides)
+			for _, s := range si.Sites {
+				extra := ""
+				if s.What == "slice" {
+					extra = fmt.Sprintf(" hi=%s span=%s", s.Hi, s.Span)
+				}
+				fmt.Printf("    %s %s %s%s store=%v\n", p.Pos(s.Instr.Pos()), s.What, s.Val, extra, s.Store)
+			}
+			for _, mv := range si.Moves {
+				fmt.Printf("    move %s dst=%s src=%s\n", p.Pos(mv.Instr.Pos()), mv.Dst, mv.Src)
+			}
+			for _, c := range si.Calls {
+				fmt.Printf("    call %s %s.%s = %s\n", p.Pos(c.Call.Pos()), c.Callee.Name(), c.Param, c.Val)
+			}
+		}
 	case "funcs":
 		for _, fn := range p.SrcFuncs(true) {
 			fmt.Println(core.FuncName(fn))
